@@ -554,9 +554,10 @@ func signRun(fsys filesystem.Filesystem, strat db.UpdateStrategy, aliasToEnt fun
 func cutOffset(content []byte, class string, rng *util.Rng) int {
 	n := len(content)
 	hashEnd := 0
-	if bytes.HasPrefix(content, []byte("#HASH:")) {
-		if nl := bytes.IndexByte(content, '\n'); nl >= 0 {
-			hashEnd = nl + 1
+	// (the hash line may have a byte order mark, blanks or empty lines in front of it: ResaveArt)
+	if i := bytes.Index(content, []byte("#HASH:")); i >= 0 && len(bytes.TrimLeft(content[:i], "\xef\xbb\xbf \t\r\n")) == 0 {
+		if nl := bytes.IndexByte(content[i:], '\n'); nl >= 0 {
+			hashEnd = i + nl + 1
 		} else {
 			hashEnd = n
 		}
@@ -749,7 +750,14 @@ func (x *repoExec) perform(w *repoWorld, pre *absState, preFacts map[string]*art
 	case "ResaveArt":
 		// saved again by an editor: the same hash line and blocks, followed by something that is no PEM block
 		tails := []string{"\n", "\n\n", "# checked 2024-05-05\n", "\r\n", "  \n", "-----BEGIN NOTHING"}
-		nw.fs.Put(art, append(append([]byte{}, nw.fs.Files[art].Data...), tails[x.rng.Intn(len(tails))]...))
+		// ... or with something in front of the first line: a byte order mark, an indentation, an empty line
+		heads := []string{"", "", "", "\xef\xbb\xbf", " ", "\n", "\t"}
+		head := heads[x.rng.Intn(len(heads))]
+		old := bytes.TrimLeft(nw.fs.Files[art].Data, "\xef\xbb\xbf \t\n")
+		if !bytes.HasPrefix(old, []byte(project.HashPrefix)) {
+			head = "" // (in front of a PEM block such a thing would hide the block: another action, not a re-save)
+		}
+		nw.fs.Put(art, append(append([]byte(head), old...), tails[x.rng.Intn(len(tails))]...))
 	case "Replace":
 		prof := -1 // the user-supplied certificate is made for the current effective configuration (profile part included)
 		if nw.uses[a.E] {
